@@ -466,10 +466,31 @@ def check_primitives(prog):
                 if ok and isinstance(k, int) and 0 < k < 32:
                     steps.append(1 << k)
                     shift_form = True
+    horner = None
+    if not steps:
+        # two phases: the 7-bit digits are collected (least significant first) up to the first byte without continuation bit, then
+        # folded from the most significant one:  value = value * 128 + digit  over reversed(digits) / digits.pop()
+        coll = [x for x in ast.walk(r.node) if isinstance(x, ast.Call) and isinstance(x.func, ast.Attribute) and x.func.attr == "append"
+                and x.args and isinstance(x.args[0], ast.BinOp) and isinstance(x.args[0].op, ast.BitAnd)]
+        fold = [x for x in ast.walk(r.node) if isinstance(x, ast.Assign) and isinstance(x.value, ast.BinOp) and isinstance(x.value.op, ast.Add)
+                and isinstance(x.value.left, ast.BinOp) and isinstance(x.value.left.op, (ast.Mult, ast.LShift))
+                and U(x.value.left.left) == U(x.targets[0])]
+        if coll and fold:
+            ok, k = r.fold(fold[0].value.left.right)
+            if ok and isinstance(k, int):
+                steps.append((1 << k) if isinstance(fold[0].value.left.op, ast.LShift) else k)
+                horner = (U(coll[0].func.value), fold[0])
     if len(masks) < 1 or not steps:
         raise AnalysisError("decodeLength: masks / multiplier step not recognisable")
     value_mask = min(masks)
     test_bits = [m for m in masks if m != value_mask] or [None]
+    if test_bits == [None]:
+        # the continuation test written as a comparison of the whole byte:  byte < 0x80  /  byte >= 0x80
+        for x in ast.walk(r.node):
+            if isinstance(x, ast.Compare) and len(x.ops) == 1 and isinstance(x.ops[0], (ast.Lt, ast.GtE)) and isinstance(x.left, ast.Name):
+                ok, c = r.fold(x.comparators[0])
+                if ok and isinstance(c, int):
+                    test_bits = [c]
     dl = {"mask": value_mask, "step": steps[0], "test": test_bits[0]}
     if not (dl["mask"] + 1 == dl["step"] == 128 and dl["test"] == 128):
         probs.append(Problem("L1", "decodeLength", "radix", "value mask 0x%02x, multiplier step %s and continuation test bit %s must be 0x7F, 128 and 0x80" % (
@@ -486,6 +507,10 @@ def check_primitives(prog):
                     okb = True
             elif isinstance(t, ast.UnaryOp) and isinstance(t.op, ast.Not):
                 okb = True
+            if isinstance(t, ast.Compare) and len(t.ops) == 1 and isinstance(t.ops[0], ast.Lt):
+                ok, c = r.fold(t.comparators[0])
+                if ok and c == dl["test"] and isinstance(t.left, ast.Name):
+                    okb = True       # byte < 0x80: the continuation bit is clear
             if not okb:
                 probs.append(Problem("L1", "decodeLength", "stop-test", "decoding stops on `%s`; it must stop exactly when the continuation bit is clear" % U(t), x))
     # additive accumulation with a multiplier that starts at 1, value at 0
@@ -501,6 +526,21 @@ def check_primitives(prog):
         if adv and ai and min(adv) < min(ai):
             probs.append(Problem("L1", "decodeLength", "accumulate", "the weight is advanced before the digit is accumulated: the first digit is "
                                  "weighted %d instead of 1" % steps[0], lb[min(adv)]))
+    if horner is not None:
+        acc = [horner[1]]
+        lst, foldst = horner
+        # the fold must start from the most significant digit: reversed(list) or list.pop() (from the end)
+        loopf = next((x for x in ast.walk(r.node) if isinstance(x, (ast.For, ast.While)) and any(y is foldst for y in ast.walk(x))), None)
+        msf = False
+        if isinstance(loopf, ast.For) and isinstance(loopf.iter, ast.Call) and isinstance(loopf.iter.func, ast.Name) and loopf.iter.func.id == "reversed" \
+                and loopf.iter.args and U(loopf.iter.args[0]) == lst:
+            msf = True
+        if isinstance(loopf, ast.While) and any(isinstance(y, ast.Call) and isinstance(y.func, ast.Attribute) and y.func.attr == "pop" and not y.args
+                                                and U(y.func.value) == lst for y in ast.walk(foldst)):
+            msf = True
+        if not msf:
+            probs.append(Problem("L1", "decodeLength", "accumulate", "the collected digits are folded least significant first: the value "
+                                 "comes out with its digits reversed", foldst))
     if not acc:
         probs.append(Problem("L1", "decodeLength", "accumulate", "digits are not accumulated additively (value += digit * multiplier)", r.node))
     inits = {}
@@ -509,7 +549,10 @@ def check_primitives(prog):
             ok, v = r.fold(x.value)
             if ok:
                 inits[x.targets[0].id] = v
-    if sorted(inits.values()) != ([0, 0] if shift_form else [0, 1]):
+    if horner is not None:
+        if [v for v in inits.values() if isinstance(v, int)] != [0]:
+            probs.append(Problem("L1", "decodeLength", "init", "the folded value must start at 0 (found %s)" % inits, r.node))
+    elif sorted(inits.values()) != ([0, 0] if shift_form else [0, 1]):
         probs.append(Problem("L1", "decodeLength", "init", "accumulator and multiplier must start at 0 and 1 (found %s)" % inits, r.node))
     # guards that reject: a bound on the multiplier must admit every legal 4-byte length
     loop = plain[0] if plain else None
